@@ -10,9 +10,16 @@ wire formats
   parser   : {"prefix": str|null, "decls": [{"key": [seg, …], "kind": "json" | "raw" | {"yesno": "bare"|"opt"|"one"}
              | {"nlist": ["n1"|"n2"|"plus"|"star", elemRaw]}}, …]}   (clash table = Jap.Gen.clashNames)
   settings : [[[seg, …], value], …]
+typed part (op "typed"):
+  type     : "int"|"float"|"bool"|"str"|"none" | {"enum": [name…]} | {"union": [type…]} | {"list": type} | {"dict": type}
+             | {"tupleVar": type} | {"tuple": [type…]} | {"tdict": [[name…], [type…]]}
+  pvalue   : null | true/false | int | "str" | {"f": "<token>"} | {"fi": int} | [pvalue…] | {"d": [[key, pvalue]…]} | {"t": [pvalue…]}
+  {"op":"typed","t":type,"v":pvalue,"s":text|null,"L":[[text,pvalue]…],"Y":[[text,pvalue]…]}
+     -> {"value": viaValue, "text": viaText (when s is given), "noStrTop":…, "noEnumName":…}   (the loaders as finite tables)
 -/
 import Lean.Data.Json
 import Jap.Core.Channels
+import Jap.Core.ChannelsTyped
 import Jap.Gen.NsTables
 
 open Lean Jap.NS Jap.Channels
@@ -172,10 +179,87 @@ def sourceToJson : Source → Json
   | .objDotted is => Json.mkObj [("objDotted", .arr (is.map fun e => Json.arr #[.str e.1, valToJson e.2]).toArray)]
   | .env vs => Json.mkObj [("env", .arr (vs.map fun e => Json.arr #[.str e.1, .str e.2]).toArray)]
 
+/-! ## typed part -/
+open Jap.Channels.Typed in
+partial def tyOfJson : Json → Option Ty
+  | .str "int" => some .int
+  | .str "float" => some .float
+  | .str "bool" => some .bool
+  | .str "str" => some .str
+  | .str "none" => some .none
+  | j =>
+    match j.getObjVal? "enum", j.getObjVal? "union", j.getObjVal? "list", j.getObjVal? "dict", j.getObjVal? "tupleVar",
+          j.getObjVal? "tuple", j.getObjVal? "tdict" with
+    | .ok e, _, _, _, _, _, _ => some (.enum (strList e))
+    | _, .ok (.arr ts), _, _, _, _, _ => (traverse tyOfJson ts.toList).map .union
+    | _, _, .ok t, _, _, _, _ => (tyOfJson t).map .list
+    | _, _, _, .ok t, _, _, _ => (tyOfJson t).map .dict
+    | _, _, _, _, .ok t, _, _ => (tyOfJson t).map .tupleVar
+    | _, _, _, _, _, .ok (.arr ts), _ => (traverse tyOfJson ts.toList).map .tuple
+    | _, _, _, _, _, _, .ok (.arr #[ns, .arr ts]) => (traverse tyOfJson ts.toList).map (.tdict (strList ns))
+    | _, _, _, _, _, _, _ => none
+
+open Jap.Channels.Typed in
+partial def pvOfJson : Json → Option PV
+  | .null => some .none
+  | .bool b => some (.bool b)
+  | .num n => if n.exponent = 0 then some (.int n.mantissa) else none
+  | .str s => some (.str s)
+  | .arr xs => (traverse pvOfJson xs.toList).map .list
+  | .obj o =>
+    match (Json.obj o).getObjVal? "f", (Json.obj o).getObjVal? "fi", (Json.obj o).getObjVal? "d", (Json.obj o).getObjVal? "t" with
+    | .ok (.str t), _, _, _ =>
+      match readNum t.toList with
+      | some tok => if wfTok tok then some (.num tok) else none
+      | none => none
+    | _, .ok (.num n), _, _ => if n.exponent = 0 then some (.fint n.mantissa) else none
+    | _, _, .ok (.arr ps), _ =>
+      (traverse (fun e => match e with
+        | .arr #[.str k, v] => (pvOfJson v).map (fun x => (k, x))
+        | _ => none) ps.toList).map .dict
+    | _, _, _, .ok (.arr xs) => (traverse pvOfJson xs.toList).map .tuple
+    | _, _, _, _ => none
+
+open Jap.Channels.Typed in
+partial def pvToJson : PV → Json
+  | .none => .null
+  | .bool b => .bool b
+  | .int i => .num (JsonNumber.fromInt i)
+  | .num t => Json.mkObj [("f", .str (String.ofList (tokChars t)))]
+  | .fint i => Json.mkObj [("fi", .num (JsonNumber.fromInt i))]
+  | .str s => .str s
+  | .list xs => .arr (xs.map pvToJson).toArray
+  | .dict kvs => Json.mkObj [("d", .arr (kvs.map fun kv => Json.arr #[.str kv.1, pvToJson kv.2]).toArray)]
+  | .tuple xs => Json.mkObj [("t", .arr (xs.map pvToJson).toArray)]
+
+open Jap.Channels.Typed in
+def tabOfJson : Json → Option (List (String × PV))
+  | .arr es => traverse (fun e => match e with
+      | .arr #[.str k, v] => (pvOfJson v).map (fun x => (k, x))
+      | _ => none) es.toList
+  | .null => some []
+  | _ => none
+
+open Jap.Channels.Typed in
+def stepTyped (j : Json) : Json :=
+  match tyOfJson (getD j "t"), pvOfJson (getD j "v"), tabOfJson (getD j "L"), tabOfJson (getD j "Y") with
+  | some t, some v, some lt, some yt =>
+    let L := tableLoader lt
+    let Y := tableLoader yt
+    let base := [("value", optToJson pvToJson (viaValue L Y t v)), ("noStrTop", .bool (noStrTop t)),
+      ("origReset", Json.arr #[.bool Jap.Gen.ChannelSrc.origResetTupleSet, .bool Jap.Gen.ChannelSrc.origResetList,
+        .bool Jap.Gen.ChannelSrc.origResetDict, .bool Jap.Gen.ChannelSrc.origResetTypedDict])]
+    match getStr? j "s" with
+    | some s => Json.mkObj (base ++ [("text", optToJson pvToJson (viaText L Y t s)), ("noEnumName", .bool (noEnumName s t)),
+        ("textOk", .bool (decide (strip s.toList ≠ []) && decide (strip s.toList ≠ ['-'])))])
+    | none => Json.mkObj base
+  | _, _, _, _ => Json.mkObj [("bad", .str "typed arguments")]
+
 def bad (msg : String) : Json := Json.mkObj [("bad", .str msg)]
 
 def step (j : Json) : Json :=
   match getStr? j "op" with
+  | some "typed" => stepTyped j
   | some "envvar" =>
     match keyOfJson (getD j "key") with
     | some k =>
